@@ -193,6 +193,7 @@ func init() {
 			r := []*Instance{
 				{Pkg: fsm, Func: "VH_C03_batching", Args: []int64{2, 2, 0, 1}, Unwind: 32},
 				{Pkg: fsm, Func: "VH_C03_batching", Args: []int64{3, 1, 0, 1}, Unwind: 32},
+				{Pkg: fsm, Func: "VH_C03_rangethenread", Args: []int64{1, 1}, Unwind: 32},
 				{Pkg: fsm, Func: "VH_C03_vacuity", Expect: "violated"},
 			}
 			if tier == "thorough" {
@@ -201,9 +202,9 @@ func init() {
 			}
 			return r
 		},
-		Covers: map[string][]string{"VH_C03_batching": {"end", "split"}},
+		Covers: map[string][]string{"VH_C03_batching": {"end", "split"}, "VH_C03_rangethenread": {"end", "split"}},
 		Bounds: map[string]string{
-			"quick":    "logs of 2 entries (no-op or put, each with/without leader index) and of 3 no-op entries (each with/without leader index), every partition into consecutive apply calls vs one call, arbitrary bookkeeping in the pre-state, strictly ascending indices (steps 1..64)",
+			"quick":    "logs of 2 entries (no-op or put, each with/without leader index) and of 3 no-op entries (each with/without leader index), every partition into consecutive apply calls vs one call, arbitrary bookkeeping in the pre-state, strictly ascending indices (steps 1..64); a wildcard range delete followed by a put with prev_kv / a counted delete on a 0..1-pair pre-state, together vs separately",
 			"thorough": "adds delete-range and transaction entries on a 0..1-pair pre-state, and 3-entry logs with puts",
 		},
 		Outside: "reopen / snapshot transfer between apply calls (content preservation there is Pebble's; regatta's side is C04/C08); logs longer than 3 entries",
@@ -316,7 +317,8 @@ func init() {
 			r := []*Instance{
 				{Pkg: tb, Func: "VH_C14_step", Unwind: 64},
 				{Pkg: tb, Func: "VH_C14_recreate", Unwind: 64},
-				{Pkg: tb, Func: "VH_C14_race", Unwind: 64},
+				{Pkg: tb, Func: "VH_C14_race", Args: []int64{1}, Unwind: 64},
+				{Pkg: tb, Func: "VH_C14_race", Args: []int64{0}, Unwind: 64},
 				{Pkg: tb, Func: "VH_C14_diff", Args: []int64{2, 1}, Unwind: 64},
 				{Pkg: tb, Func: "VH_C14_diff", Args: []int64{1, 2}, Unwind: 64},
 				{Pkg: tb, Func: "VH_C14_vacuity", Expect: "violated"},
@@ -328,7 +330,7 @@ func init() {
 		},
 		Covers: map[string][]string{"VH_C14_step": {"end", "create-ok", "create-exists", "delete-ok"}, "VH_C14_recreate": {"end"}, "VH_C14_race": {"end", "one-wins"}, "VH_C14_diff": {"end", "start", "stop"}},
 		Bounds: map[string]string{
-			"quick":    "catalogue over 3 names with arbitrary membership, ids drawn from (10000, seq] for seq in {absent, 10003, 10007}, arbitrary record versions; one create/delete/list step; delete+recreate; two racing creates of one name with every interleaving of their store accesses; diffTables over 2 records x 1 running shard and 1 record x 2 running shards (ids and recover-ids 64-bit symbolic) under all map orders",
+			"quick":    "catalogue over 3 names with arbitrary membership, ids drawn from (10000, seq] for seq in {absent, 10003, 10007}, arbitrary record versions; one create/delete/list step; delete+recreate; two racing creates (of one name, and of two different names) with every interleaving of their store accesses; diffTables over 2 records x 1 running shard and 1 record x 2 running shards (ids and recover-ids 64-bit symbolic) under all map orders",
 			"thorough": "diffTables 2 x 2",
 		},
 		Outside: "emptiness of a (re)created table's data (the state-machine directory is derived from name and id; exercising FSM.Open needs the file-system model: see C04) and isolation between shards; names containing '/'; actual shard start/stop inside dragonboat; Restore's id switch",
@@ -347,13 +349,15 @@ func init() {
 				{Pkg: rs, Func: "VH_C16_txn", Args: []int64{1}, Unwind: 64},
 				{Pkg: rs, Func: "VH_C16_txn", Args: []int64{2}, Unwind: 64},
 				{Pkg: rs, Func: "VH_C16_txn", Args: []int64{3}, Unwind: 64},
+				{Pkg: rs, Func: "VH_C16_txn", Args: []int64{4}, Unwind: 64},
+				{Pkg: rs, Func: "VH_C16_txn", Args: []int64{5}, Unwind: 64},
 				{Pkg: rs, Func: "VH_C16_tables", Unwind: 64},
 				{Pkg: rs, Func: "VH_C16_vacuity", Expect: "violated"},
 			}
 		},
 		Covers: map[string][]string{"VH_C16_range": {"end", "malformed", "unsupported", "unknown-table", "oversize", "valid"}, "VH_C16_write": {"end", "malformed", "oversize", "valid"}, "VH_C16_txn": {"end"}, "VH_C16_tables": {"end"}},
 		Bounds: map[string]string{
-			"quick":    "every combination of: table absent / known / unknown; key and range_end absent / 1 arbitrary byte / 1024 bytes / 1025 bytes; value absent / 1 byte / 2 MiB / 2 MiB+1; limit any int64; all boolean flags; each revision filter; transactions with one nested put / delete / range (same classes) or an empty oneof; Tables create/delete of missing / existing / new name on leader and follower servers; a panic anywhere below the RPC method is a violation",
+			"quick":    "every combination of: table absent / known / unknown; key and range_end absent / 1 arbitrary byte / 1024 bytes / 1025 bytes; value absent / 1 byte / 2 MiB / 2 MiB+1; limit any int64; all boolean flags; each revision filter; transactions with one nested put / delete / range (same classes) or an empty oneof, and with two operations (a put of every class next to an unset oneof or a range, in either order and either branch); Tables create/delete of missing / existing / new name on leader and follower servers; a panic anywhere below the RPC method is a violation",
 			"thorough": "same",
 		},
 		Outside: "field lengths other than the class representatives (lengths only enter through len() comparisons with 0, 1024 and 2 MiB); transactions with more than one operation; gRPC transport-level limits; exact status code for oversize keys/values and for leader-side Tables errors (non-OK and no effect are demanded)",
@@ -426,6 +430,11 @@ func init() {
 			r = append(r, &Instance{Pkg: sn, Func: "VH_C18_framing", Args: []int64{1, 0}, Unwind: 64})
 			r = append(r, &Instance{Pkg: sn, Func: "VH_C18_framing", Args: []int64{1, 1}, Unwind: 64})
 			if tier == "thorough" {
+				r = append(r, &Instance{Pkg: sn, Func: "VH_C18_framing", Args: []int64{2, 2}, Unwind: 64, EngineOnly: true})
+			} else {
+				r = append(r, &Instance{Pkg: sn, Func: "VH_C18_framing", Args: []int64{1, 2}, Unwind: 64, EngineOnly: true})
+			}
+			if tier == "thorough" {
 				r = append(r, &Instance{Pkg: sn, Func: "VH_C18_framing", Args: []int64{2, 0}, Unwind: 64})
 			}
 			r = append(r, &Instance{Pkg: sn, Func: "VH_C18_framing_vacuity", Expect: "violated"})
@@ -434,7 +443,7 @@ func init() {
 		},
 		Covers: map[string][]string{"VH_C18_mvcc": {"end"}, "VH_C18_api": {"end"}, "VH_C18_replication": {"end"}, "VH_C18_pooledsend": {"end"}, "VH_C18_framing": {"end"}},
 		Bounds: map[string]string{
-			"quick":    "messages: every shape of Command (own optional fields; kv; batch 0..2; txn with 0..1 compare/success/failure of every op kind; sequence of 1..2), CommandResult, Txn, RequestOp, ResponseOp, Compare, KeyValue, Range/Put/DeleteRange/Txn request+response, ResponseHeader, ReplicateRequest/Response (all arms), SnapshotChunk; per run one byte-length class (absent, 1, 2 bytes) and one varint class (0; 1..64; 128..383; top bit set) for all fields of the message, every field with its own symbolic content; KeyValue and SnapshotChunk additionally with independent classes per field; SnapshotChunk into a pooled object that held another chunk, and re-used after ResetVT; Command built on a recycled pooled object. framing: 1 record of 1..3 arbitrary bytes, stream cut at every position (reader hands out 1..n bytes per call), received via WriteTo and via Read",
+			"quick":    "messages: every shape of Command (own optional fields; kv; batch 0..2; txn with 0..1 compare/success/failure of every op kind; sequence of 1..2), CommandResult, Txn, RequestOp, ResponseOp, Compare, KeyValue, Range/Put/DeleteRange/Txn request+response, ResponseHeader, ReplicateRequest/Response (all arms), SnapshotChunk; per run one byte-length class (absent, 1, 2 bytes) and one varint class (0; 1..64; 128..383; top bit set) for all fields of the message, every field with its own symbolic content; KeyValue and SnapshotChunk additionally with independent classes per field; SnapshotChunk into a pooled object that held another chunk, and re-used after ResetVT; Command built on a recycled pooled object. framing: 1 record of 1..3 arbitrary bytes, stream cut at every position (reader hands out 1..n bytes per call), received via WriteTo and via Read; 1 record (thorough: 2) read back through a reader that may return short reads (full / 1 byte / half) at every call (engine only)",
 			"thorough": "framing with 2 records",
 		},
 		Outside: "gzip / snappy / zstd compressors and their pooled state under concurrency: compression kernels cannot be encoded (declined; the snappy layer inside the snapshot file is an identity pipe here); fields longer than 2 bytes; varint lengths 3..9; mixed presence patterns inside nested messages; the backup tar writer",
